@@ -8,6 +8,7 @@ import (
 	"math"
 	"math/rand"
 	"reflect"
+	"sort"
 	"strconv"
 	"strings"
 	"time"
@@ -454,7 +455,12 @@ func (g *gen) value(t reflect.Type, depth int) (reflect.Value, *wire) {
 			v.Set(reflect.ValueOf(l))
 			w.text = l.S
 		default:
-			panic("unknown text type " + t.String())
+			kv, text, ok := g.kindTextValue(t)
+			if !ok {
+				panic("unknown text type " + t.String())
+			}
+			v.Set(kv)
+			w.text = text
 		}
 		w.k, w.want = kStr, kStr
 		g.feat("text_unmarshaler")
@@ -589,6 +595,10 @@ func eqValue(got, want reflect.Value, path string) string {
 	if got.Type() != want.Type() {
 		return fmt.Sprintf("%s: type %s != %s", path, got.Type(), want.Type())
 	}
+	if got.Type() != tTime && got.Kind() == reflect.Struct && got.Type().ConvertibleTo(tTime) {
+		// a named type with the representation of time.Time
+		got, want = got.Convert(tTime), want.Convert(tTime)
+	}
 	if got.Type() == tTime {
 		if !got.CanInterface() {
 			return ""
@@ -623,6 +633,20 @@ func eqValue(got, want reflect.Value, path string) string {
 	case reflect.Struct:
 		for i := 0; i < got.NumField(); i++ {
 			if d := eqValue(got.Field(i), want.Field(i), path+"."+got.Type().Field(i).Name); d != "" {
+				return d
+			}
+		}
+		return ""
+	case reflect.Map: // string-keyed (TextKV); nil and empty not told apart
+		if got.Len() != want.Len() {
+			return fmt.Sprintf("%s: len %d != %d", path, got.Len(), want.Len())
+		}
+		for _, k := range sortedKeys(want) {
+			gv := got.MapIndex(k)
+			if !gv.IsValid() {
+				return fmt.Sprintf("%s: key %q missing", path, k.String())
+			}
+			if d := eqValue(gv, want.MapIndex(k), fmt.Sprintf("%s[%q]", path, k.String())); d != "" {
 				return d
 			}
 		}
@@ -666,6 +690,9 @@ func showInto(sb *strings.Builder, v reflect.Value, depth int, norm bool) {
 		sb.WriteString("…")
 		return
 	}
+	if v.Type() != tTime && v.Kind() == reflect.Struct && v.Type().ConvertibleTo(tTime) {
+		v = v.Convert(tTime)
+	}
 	if v.Type() == tTime && v.CanInterface() {
 		sb.WriteString(v.Interface().(time.Time).Format(time.RFC3339Nano))
 		return
@@ -703,6 +730,16 @@ func showInto(sb *strings.Builder, v reflect.Value, depth int, norm bool) {
 			showInto(sb, v.Field(i), depth+1, norm)
 		}
 		sb.WriteString("}")
+	case reflect.Map:
+		sb.WriteString("map[")
+		for i, k := range sortedKeys(v) {
+			if i > 0 {
+				sb.WriteString(" ")
+			}
+			sb.WriteString(strconv.Quote(k.String()) + ":")
+			showInto(sb, v.MapIndex(k), depth+1, norm)
+		}
+		sb.WriteString("]")
 	case reflect.String:
 		sb.WriteString(strconv.Quote(v.String()))
 	case reflect.Bool:
@@ -716,4 +753,11 @@ func showInto(sb *strings.Builder, v reflect.Value, depth int, norm bool) {
 	default:
 		sb.WriteString("?" + v.Kind().String())
 	}
+}
+
+// sortedKeys returns the keys of a string-keyed map in order.
+func sortedKeys(m reflect.Value) []reflect.Value {
+	ks := m.MapKeys()
+	sort.Slice(ks, func(a, b int) bool { return ks[a].String() < ks[b].String() })
+	return ks
 }
